@@ -339,22 +339,26 @@ _cut('C02', 'Tie: families floor/floorc/floors', 'DYNAMIC WORLDS (Props/C02W.lea
      'counterexamples show every clause necessary), budget_reachable_dyn, held_once_reachable_dyn. Tie: families '
      'floor/floorc/floors/floorq and sys/floorl (creation while running) vs the real code on slots, part contents, sink '
      'counts, failure log and shutdown callbacks; census monitor on implementation traces after every event.')
-_cut('C03', 'NOT proved: the global invariant', 'CLOSED WORLD (Props/C03W.lean): no_lost_wakeup_reachable: in every reachable state at which the clock is about to advance, '
+_cut('C03', 'NOT proved: the global invariant', 'CLOSED WORLD (Props/C03W.lean): no_lost_wakeupC_reachable: in every reachable state at which the clock is about to advance, '
      'every ready part is genuinely blocked (Wake invariant: a live attempt is queued for now, or the holder is flagged and no '
-     'downstream would accept), for scope S1 = sources, handlers, processors without resource requirements, buffers, gates, '
-     'sinks with arbitrary wiring, failures, maintenance, blocking and budget changes; give_answer (give answers exactly '
-     'wouldAccept). The proof attempt with batches produced the counterexample that is finding F12 (repaired). Processors '
-     'with resource requirements, batchers and groups are outside S1: there the property is CHECKED on the real code by the '
-     'deep-copy probe at every clock advance and by correspondence.')
-CLAIMED['C03']['note'] = BASE_NOTE + ' Partial: closed-world theorem for scope S1; resources/batchers/groups by probe and correspondence. "run returns": per-scenario watchdog.'
+     'downstream would accept, or the only willing downstream is a processor waiting for resources with a live pending-request '
+     'check queued for now), for scope S4 = sources, handlers, processors with or without resource requirements, buffers, '
+     'gates, batchers and batches, sinks and ONE shared group with any number of paths, arbitrary wiring, failures, '
+     'maintenance, blocking, capacity and budget changes (nested scopes S1-S4, each preserved by every step); give_answerC '
+     '(give answers exactly wouldAccept). The proof attempt with batches produced the counterexample that is finding F12 '
+     '(repaired). Several groups are outside S4: there the property is CHECKED on the real code by the deep-copy probe at '
+     'every clock advance and by correspondence.')
+CLAIMED['C03']['note'] = BASE_NOTE + ' Partial: closed-world theorem for scope S4 (one shared group); several/nested groups by probe and correspondence. "run returns": per-scenario watchdog.'
 _add('C05', 'CLOSED WORLD (Props/C05W.lean): bufOK_reachable / bufOK_exec for every buffer of every reachable state of ANY topology '
      '(self-loops included), queue_step (FIFO: the queue after a step is drop k ++ new, every dropped entry waited its delay). '
      'Off the dyadic grid the minimum-delay clause is checked on the real code in exact rational arithmetic (harness/c05.py).')
 _cut('C08', 'NOT proved: the closed-world invariant', 'CLOSED WORLD (Props/C08W.lean): give_history_exact (through any nesting of gates, paths, group inputs/outputs the history grows by '
      'exactly the chain walked), route_reachable: in every reachable state of a Static world of any topology every history '
      'is a walk along configured connections from a source to the holder and every path stack is the exact bracket structure '
-     '(Stacks without batchers; gates_accept_now without batchers and callbacks - two checked counterexamples show why). The '
-     'idle-longest rule is additionally checked by a monitor that keeps its own idle clock. Tie: correspondence of all '
+     '(Stacks without batchers; gates_accept_now without batchers and callbacks - two checked counterexamples show why). '
+     'Props/C08S.lean: the idle clock is EXACT in every reachable state (idle_clock_iff: it runs iff the device is free; '
+     'clock_never_moved; becomes_free_starts_clock; idle_longest_first) - finding F13 repaired; the '
+     'idle-longest rule is additionally checked by a monitor that keeps its own idle clock (family floori). Tie: correspondence of all '
      'histories and stacks; routing monitors.')
 _cut('C17', 'NOT proved: the end-to-end', 'CLOSED WORLD (Props/C17W.lean): batcher_wf_reachable, sizes_reachable (exact batch sizes in every reachable state), '
      'order_step / order_reachable_closed (across any step the leaf sequence of a batcher only grows at the end by arriving '
